@@ -173,7 +173,9 @@ Definition rate_wiring_ok : bool :=
   generic_site_ok generic_rate_site && site_shape_ok generic_rate_site &&
   Nat.eqb (List.length ratelimit_new_sites) 2 &&
   (* the chunks of a port scan (one limiter each) run one after the other: exactly one plain call in the loop *)
-  match port_scan_chunk_loop_calls with [f] => f =? "startPacketScanEngine" | _ => false end &&
+  (* (a `return startPacketScanEngine(..)` statement outside the loop ends the function: it runs instead of the loop) *)
+  match filter (fun f => negb (f =? "tail-return startPacketScanEngine")) port_scan_chunk_loop_calls with
+  | [f] => f =? "startPacketScanEngine" | _ => false end &&
   forallb packet_cmd_ok rate_packet_cmds && forallb generic_cmd_ok rate_generic_cmds &&
   all_commands_present &&
   match rate_setters with
